@@ -142,12 +142,12 @@ def drift_report(results):
 # ---------------------------------------------------------------------------------------------------
 # transition cover (spec/Cover_Stream.tla)
 
-def cover_histories(pairs=False, cfg="Cover_Stream"):
+def cover_histories(pairs=False, cfg="Cover_Stream", module="Cover_Stream"):
     """Histories that exercise every edge (or every pair of consecutive edges) of the abstract state
     graph of Env_Git x Impl_Stream.  Returns (histories, stats)."""
     import collections
-    r = tlc.run_tlc("Cover_Stream", cfg=cfg, workers=1, coverage=False, timeout=900)
-    tlc.require_ok(r, "Cover_Stream")
+    r = tlc.run_tlc(module, cfg=cfg, workers=1, coverage=False, timeout=900)
+    tlc.require_ok(r, module)
     edges = [v for t, v in r.printed if t == "EDGE"]
     if not edges:
         raise core.ToolError("Cover_Stream produced no edges")
